@@ -28,6 +28,7 @@ func outDir() string {
 
 // Prepare runs the frame/effect pass.
 func (e *Engine) Prepare() {
+	e.computeAmbiguous()
 	e.effects = e.ComputeEffects()
 	e.setupTypeInvs()
 }
@@ -135,6 +136,29 @@ func RunProperty(p string, secs int, thorough bool, keep string) (*RunResult, er
 		if p == "" || contractServes(c, p) {
 			e.VerifyFunc(key)
 		}
+	}
+	// contracts that no longer resolve against the tree (dropped at load): a named failing obligation for their properties
+	for _, k := range sortedStrKeysS(prog.Dropped) {
+		props := prog.DroppedProps[k]
+		if p == "" || hasProp(props, p) {
+			e.frameObl("contracts-resolve:"+k, props, false, "", "the contract of "+k+" resolves against the current source (every local, loop, call and closure it names exists)", prog.Dropped[k])
+		}
+	}
+	// obligation names quote source expressions: under a followed renaming they are spelt with the ledger's names
+	for _, o := range e.Obls {
+		if m := prog.Renamed[o.Func]; len(m) > 0 {
+			for oldN, newN := range m {
+				o.Name = regexp.MustCompile(`\b`+regexp.QuoteMeta(newN)+`\b`).ReplaceAllString(o.Name, oldN)
+			}
+		}
+	}
+	for _, k := range sortedStrKeysM(prog.Renamed) {
+		var rs []string
+		for o, n := range prog.Renamed[k] {
+			rs = append(rs, o+"->"+n)
+		}
+		sort.Strings(rs)
+		fmt.Printf("NOTE contract of %s: renamed locals followed (%s)\n", k, strings.Join(rs, ", "))
 	}
 	// C01, zero-annotation sweep: every function without a contract is verified for panic-freedom with no
 	// precondition.  These obligations are advisory: only those that discharged on the unchanged tree (ledger) are
@@ -581,6 +605,12 @@ func LockCmd(args []string) int {
 			lf[p] = append(lf[p], o.Name)
 		}
 	}
+	// the variables of every contracted function in declaration order (used to follow pure renamings, see LoadProgram)
+	for _, k := range rr.Engine.P.CF.Order {
+		if fi := rr.Engine.P.Funcs[k]; fi != nil && fi.Decl != nil {
+			lf[localsKey] = append(lf[localsKey], k+"\t"+strings.Join(localList(rr.Engine.P.Info, fi), ","))
+		}
+	}
 	for p := range lf {
 		sort.Strings(lf[p])
 	}
@@ -614,6 +644,24 @@ const reachableMark = "~reachable"
 func isRetCanary(name string) bool { return strings.Contains(name, "/vacuity:ret") }
 
 func sortedKeysObl(m map[string][]*Obligation) []string {
+	var out []string
+	for k := range m {
+		out = append(out, k)
+	}
+	sort.Strings(out)
+	return out
+}
+
+func sortedStrKeysS(m map[string]string) []string {
+	var out []string
+	for k := range m {
+		out = append(out, k)
+	}
+	sort.Strings(out)
+	return out
+}
+
+func sortedStrKeysM(m map[string]map[string]string) []string {
 	var out []string
 	for k := range m {
 		out = append(out, k)
